@@ -8,6 +8,7 @@ polarities (sparse / dense).  The encoded cell is handed to the library parser; 
 returned object must carry the encoded value and the slice must be consumed exactly.
 """
 import os
+from .. import engine
 from ..ref import cell as RC
 from ..ref import tlb as RTLB
 from ..ref import tlbgen as RG
@@ -40,6 +41,7 @@ def BOUNDS(tier):
 
 
 def REQUIRED_COVER(tier):
+    # (failure-histories: see case_failures)
     S = schema()
     need = {'type:' + t for t in TYPES} | {'mainnet-block'}
     for t in TYPES:                       # every constructor tag of every covered type must have been produced as a root
@@ -648,6 +650,111 @@ def shard_type(rec, T, ri, dense, part=0, parts=1):
         rec.sample({'type': T, 'root': 'transaction', 'deviations': [['Transaction.transaction/description:TransactionDescr', 3]], 'checked': 'every field of the parsed object vs the schema value; slice consumed'})
 
 
+# ------------------------------------------------------------------------------------------ failure histories
+def _verdict(T, cell, sval):
+    """None if the library parser reads the encoded value completely and field by field, else a short description"""
+    cls = lib_class(T)
+    try:
+        sl = cell_to_lib(cell, {}).begin_parse()
+        obj = cls.deserialize(sl)
+    except Exception as e:
+        return f'raised {exc_name(e)}: {e}'
+    c = Cmp()
+    c.cmp(T, nv(sval), lv(obj))
+    if c.problems:
+        return c.problems[0]
+    if sl.remaining_bits or sl.remaining_refs:
+        return f'left {sl.remaining_bits} bits / {sl.remaining_refs} refs unread'
+    return None
+
+
+def damaged_variants(root, limit=80):
+    """the tree with ONE cell damaged: truncated to 0 bits, to half, by one bit; its last reference dropped - for each of the first `limit` cells"""
+    paths, stack = [], [((), root)]
+    while stack and len(paths) < limit:
+        path, c = stack.pop()
+        paths.append((path, c))
+        for i, r in enumerate(c.refs):
+            stack.append((path + (i,), r))
+
+    def rebuild(c, path, new):
+        if not path:
+            return new
+        refs = list(c.refs)
+        refs[path[0]] = rebuild(refs[path[0]], path[1:], new)
+        return RC.RCell(c.bits, tuple(refs), c.special)
+    for path, c in paths:
+        if c.special:
+            continue
+        cuts = sorted({0, len(c.bits) // 2, len(c.bits) - 1} - {len(c.bits), -1})
+        news = [RC.RCell(c.bits[:n], c.refs) for n in cuts]
+        if c.refs:
+            news.append(RC.RCell(c.bits, c.refs[:-1]))
+        for new in news:
+            try:
+                yield path, rebuild(root, path, new)
+            except RC.RefCellError:
+                continue
+
+
+def case_failures(rec, T):
+    """a parser carries nothing over from calls that FAILED: the base values of every root constructor (both polarities) are parsed, then every
+    single-cell damage of each of them is fed to the parser (most are refused, some parse - either is fine), then the base values again:
+    their verdicts must be what they were"""
+    S = schema()
+    md = MAX_DICT[rec.tier]
+    rec.case('failures')
+    args = {'T': T}
+    bases = []
+    roots = root_ctors(S, T)
+    for ri in range(len(roots)):
+        for dense in (False, True):
+            forced = {0: (len(roots) - 1 - ri) if dense else ri} if len(roots) > 1 else {}
+            for plan, ch, res in explore(lambda ch: gen_case(S, T, ch, rec.seed, md), 0, dense, forced, md, 0, 1, 'all'):
+                if isinstance(res, Exception):
+                    continue
+                v, cell = res
+                bases.append((ri, dense, cell, S.decode(T, RTLB.Slice(cell))))
+    before = [_verdict(T, cell, back) for ri, dense, cell, back in bases]
+    fed = refused = 0
+    cls = lib_class(T)
+    for ri, dense, cell, back in bases:
+        for path, bad in damaged_variants(cell):
+            fed += 1
+            rec.trans()
+            try:
+                with rec.limit(20):
+                    cls.deserialize(cell_to_lib(bad, {}).begin_parse())
+            except engine.CaseTimeout:
+                rec.violation(f'{T}:damaged-hangs', f'{T}: a damaged encoding (cell at path {path} cut) kept the parser busy for 20 s', 'case_failures', args)
+                return
+            except Exception:
+                refused += 1
+    after = [_verdict(T, cell, back) for ri, dense, cell, back in bases]
+    rec.trace(len(bases))
+    for (ri, dense, cell, back), b, a in zip(bases, before, after):
+        if a != b:
+            rec.violation(f'{T}:after-failures', f'{T} root={ctor_of(back)} {"dense" if dense else "sparse"}: parsed {"correctly" if b is None else "(" + str(b)[:80] + ")"} before, but after {fed} parses of damaged '
+                          f'encodings ({refused} refused) the same valid encoding gives: {str(a)[:200]} - the parser carries state over from failed calls', 'case_failures', args)
+            rec.outcome('AFTER-FAILURES')
+            return
+    rec.state(('failures', T))
+    rec.nontriv(('failures', T))
+    rec.covered('failure-histories')
+    rec.notes['damaged_fed'] = rec.notes.get('damaged_fed', 0) + fed
+    rec.notes['damaged_refused'] = rec.notes.get('damaged_refused', 0) + refused
+    rec.outcome('failures-ok')
+
+
+def shard_failures(rec, part, parts):
+    for i, T in enumerate(TYPES):
+        if i % parts == part:
+            case_failures(rec, T)
+    if part == 0:
+        rec.sample({'type': 'TransactionDescr', 'history': 'base values; every single-cell damage (cut to 0 / half / minus one bit; last reference dropped) of each; base values again',
+                    'oracle': 'verdicts of the valid encodings unchanged'})
+
+
 def case_value(rec, T, dense, plan, md=3):
     S = schema()
     ch = PolChooser({(i if i == 'L' else int(i)): a for i, a in plan.items()}, dense, max_dict=md)
@@ -694,6 +801,7 @@ def selftest():
 def shards(tier, seed):
     S = schema()
     out = [{'fn': 'shard_mainnet', 'args': {}}]
+    out += [{'fn': 'shard_failures', 'args': {'part': p, 'parts': 8}, 'prio': 2} for p in range(8)]
     heavy = ('InMsg', 'OutMsg', 'Transaction', 'ValueFlow', 'TransactionDescr', 'MsgEnvelope')
     # shards whose values are big (dense polarity of the container types) are split: the first-level departures are dealt out to the parts
     split = {'BlockExtra': 32, 'AccountBlock': 8, 'ShardStateUnsplit': 6, 'Transaction': 6, 'TransactionDescr': 4, 'InMsg': 4, 'OutMsg': 4, 'McBlockExtra': 2,
